@@ -841,6 +841,30 @@ def run(idx, rep, tier):
     r8(k)
     r9(k)
     r10(k)
+    rep.rule('C13.R12', 'scp._scp_handler: the file system handed to the SCP '
+             'source / sink is always SFTPServerFS(sftp_server) - the only '
+             'thing that routes SCP paths through map_path(); no store of '
+             'local_fs (or anything else) into it, whatever the class of '
+             'the server object')
+    _fsc = k.func('scp._scp_handler')
+    _stf = k.stores_to(_fsc, 'fs')
+    _uses = [c for c in ast.walk(_fsc.node) if isinstance(c, ast.Call) and
+             (dotted(c.func) or '') in ('_SCPSource', '_SCPSink')]
+    rep.floor('C13.R12', 'SCP handlers built', len(_uses), 2)
+    for _n, _v in _stf:
+        rep.check(_v is not None and is_call(_v, 'SFTPServerFS'), 'C13.R12',
+                  key(_fsc, 'SCP goes through the SFTP server'),
+                  'fs = SFTPServerFS(sftp_server)',
+                  f'`fs = {norm(_v) if _v is not None else "?"}`: a chroot '
+                  'configured on the plain SFTPServer class is ignored for '
+                  'every SCP request (download of a host path outside the '
+                  'root succeeds)', k.loc(_fsc, _n))
+    for _c in _uses:
+        rep.check(bool(_c.args) and dotted(_c.args[0]) == 'fs' and
+                  bool(_stf), 'C13.R12',
+                  key(_fsc, f'{dotted(_c.func)} uses that file system'),
+                  'first argument is fs', 'the handler is given another '
+                  'file system object', _fsc.loc(_c))
     rep.rule('C13.R11', 'SFTPServer.readlink under a chroot: the link text '
              'is resolved relative to the directory of the link (the '
              'argument of realpath() is built with join / dirname of the '
